@@ -273,11 +273,20 @@ fn load_program(p: &J) -> ProgInfo {
             .unwrap_or_default();
         let count_all = p.get("count_all_visits").and_then(|v| v.as_bool()).unwrap_or(true);
         let r = catch_unwind(AssertUnwindSafe(|| {
-            Compiler::with_options(bladeink_compiler::CompilerOptions {
+            let c = Compiler::with_options(bladeink_compiler::CompilerOptions {
                 count_all_visits: count_all,
                 source_filename: None,
-            })
-            .compile(&src)
+            });
+            match p.get("inkfile").and_then(|v| v.as_str()) {
+                Some(path) => {
+                    let dir = std::path::Path::new(path).parent().map(|d| d.to_path_buf()).unwrap_or_default();
+                    c.compile_with_file_handler(&src, |name| {
+                        std::fs::read_to_string(dir.join(name))
+                            .map_err(|e| bladeink_compiler::CompilerError::invalid_source(format!("{}: {}", name, e)))
+                    })
+                }
+                None => c.compile(&src),
+            }
         }));
         match r {
             Ok(Ok(j)) => info.json = j,
